@@ -329,6 +329,16 @@ struct Global(UnsafeCell<Option<Box<Kernel>>>);
 unsafe impl Sync for Global {}
 static KERNEL: Global = Global(UnsafeCell::new(None));
 static KERNEL_ON: AtomicBool = AtomicBool::new(false);
+static HARNESS_IO: AtomicBool = AtomicBool::new(false);
+
+/// file access of the harness itself (exporting / importing images) is neither simulated
+/// nor traced
+pub fn untraced<R>(f: impl FnOnce() -> R) -> R {
+    let prev = HARNESS_IO.swap(true, Ordering::SeqCst);
+    let r = f();
+    HARNESS_IO.store(prev, Ordering::SeqCst);
+    r
+}
 
 /// Access the installed kernel. Safety: single-threaded use only (see module doc).
 pub fn with<R>(f: impl FnOnce(&mut Kernel) -> R) -> R {
@@ -834,7 +844,7 @@ unsafe fn path_str<'a>(path: *const c_char) -> Option<&'a str> {
 
 #[inline]
 fn sim_path(p: &str) -> bool {
-    if !installed() {
+    if !installed() || HARNESS_IO.load(Ordering::Relaxed) {
         return false;
     }
     unsafe {
